@@ -264,6 +264,11 @@ def zext(a, w):
         return a
     assert w > a.w
     c, e = aff_parts(a)
+    # widening back the low bits of a w-bit atom whose value is known to fit in them gives the atom itself
+    if c == 0 and len(e) == 1:
+        (at, p), = e.items()
+        if at.w == w and at.op != "const" and p == ident_packed(a.w, at.w) and urange(at)[1] <= mask(a.w):
+            return at
     return mk_aff(w, c, {at: _relayout(p, a.w, w, at.w) for at, p in e.items()})
 
 
@@ -491,6 +496,13 @@ def add(a, b):
             bit = _bool_word_bit(x)
             if bit is not None:
                 return bnot(replicate(bit, w))
+    # n + (c as uN) is the conditional increment ite(c, n + 1, n): one form for `if c { n += 1 }` and `n += uN::from(c)`
+    if w > 1:
+        for x, y in ((a, b), (b, a)):
+            if y.op != "const" and x.op != "const":
+                bit = _bool_word_bit(y)
+                if bit is not None and bit.op != "const" and _bool_word_bit(x) is None:
+                    return ite(bit, add(x, const(1, w)), x)
     pa, pb = to_poly(a), to_poly(b)
     for k, v in pb.items():
         pa[k] = pa.get(k, 0) + v
